@@ -286,6 +286,23 @@ func c19GenBlobs(rng *vrng, zc int) [][]int {
 	}
 	n := rng.intn(5) // 0..4 blobs
 	var blobs [][]int
+	if rng.chance(15) {
+		// a file of repeated identical chunks (constant filler): a short old file ends exactly where the
+		// next expected blob equals the one compared before
+		var b []int
+		switch rng.intn(3) {
+		case 0:
+			b = rep(1+rng.intn(3), 1+rng.intn(3))
+		case 1:
+			b = append(rep(1+rng.intn(2), 0), 1+rng.intn(3))
+		default:
+			b = rep(zc, 0)
+		}
+		for i := 0; i < 2+rng.intn(3); i++ {
+			blobs = append(blobs, append([]int{}, b...))
+		}
+		return blobs
+	}
 	for i := 0; i < n; i++ {
 		var b []int
 		switch rng.intn(8) {
@@ -467,6 +484,15 @@ func engineC19(c *vctx) error {
 		add(&c19Job{Kind: "pre-hardlinked", Root: false, Overwrite: "if-changed", NodeNew: true, Sparse: sp,
 			Pre:   c19Pre{Kind: "reg", Data: []int{3, 0, 0, 2, 3, 5, 5}, Readable: true, Hardlinked: true},
 			Blobs: [][]int{{3, 0, 0, 2}, {3}}})
+	}
+	// regression: old file shorter than a file of repeated identical blobs (stale verify buffer:
+	// seeded change C19-b)
+	for _, cut := range [][]int{{2, 2}, {2, 2, 2}, {2, 2, 2, 2}, {}} {
+		for _, ow := range []string{"always", "if-changed"} {
+			add(&c19Job{Kind: "pre-short-repeated", Root: true, Overwrite: ow, NodeNew: true,
+				Pre:   c19Pre{Kind: "reg", Data: cut, Readable: true},
+				Blobs: [][]int{{2, 2}, {2, 2}, {2, 2}}})
+		}
 	}
 	// regression: symlink in the way that points to an old version / an identical copy of the file
 	// (the overwrite check must not look through it: seeded change C19-verify-follows-symlink)
